@@ -291,6 +291,70 @@ def run_k1(chk, kinds, tier, stats):
 
 
 # --------------------------------------------------------------------------
+# K1r: re-entrant histories (oracle only -- the models do not cover re-entrancy)
+# --------------------------------------------------------------------------
+
+def run_reentrant(chk, kinds, tier, stats):
+    """Items whose first dispose() calls back into the container (or whose action calls dispose()
+    again).  Only the direct oracle is evaluated: conservation after every top-level call."""
+    n = 400 if tier == "quick" else 5000
+    rng = chk.rng
+    done = 0
+    for kind in kinds:
+        if kind not in ("disposable", "composite", "serial", "refcount"):
+            continue
+        mut = [o for o in alphabet(kind, n_items=4, n_deps=3, queries=False)]
+        for _ in range(n):
+            h = [rng.choice(mut) for _ in range(rng.randrange(1, 7))]
+            if kind == "disposable":
+                scripts = {"action": [rng.choice(mut) for _ in range(rng.randrange(1, 3))]}
+            elif kind == "refcount":
+                scripts = {0: [rng.choice(mut) for _ in range(rng.randrange(1, 3))]}
+            else:
+                scripts = {i: [rng.choice(mut) for _ in range(rng.randrange(1, 3))]
+                           for i in range(4) if rng.random() < 0.5}
+            init = rng.choice(inits(kind))
+            snaps, begun = [], []
+            outs = D.run_seq(kind, init, h, falsy=(0,), snaps=snaps, scripts=scripts, begun=begun)
+            chk.cov["evaluations"] += 1
+            done += 1
+            bad = []
+            flat = [o for out in outs for o in out]
+            if any(o[0] == "exc" for o in flat):
+                bad.append(("unexpected-exception", str([o for o in flat if o[0] == "exc"])))
+            if kind == "disposable":
+                runs = sum(1 for o in flat if o[0] == "run")
+                want = 1 if any(op[0] == "dispose" for op in h) else 0
+                if runs != want:
+                    bad.append(("action-count", f"action ran {runs} times"))
+            elif kind == "refcount":
+                u = sum(1 for o in flat if o == ("disp", 0))
+                if u > 1:
+                    bad.append(("underlying-disposed-twice", f"{u}"))
+                if u and ("dispose",) not in [op for (_, op) in begun]:
+                    bad.append(("released-too-early", "no dispose() on the primary"))
+            else:
+                handed = Counter((init or ("args", []))[1]) if kind == "composite" else Counter()
+                handed.update(op[1] for (_, op) in begun if op[0] in ("add", "set"))
+                disp = Counter(o[1] for o in flat if o[0] == "disp")
+                held = Counter(snaps[-1]["held"])
+                if snaps[-1]["is_disposed"] and snaps[-1]["held"]:
+                    bad.append(("disposed-container-holds", f"{snaps[-1]['held']}"))
+                for i in set(handed) | set(disp):
+                    if disp[i] + held[i] != handed[i]:
+                        bad.append(("reentrant-conservation", f"item {i}: handed over {handed[i]}x, dispose() calls "
+                                                              f"{disp[i]}, held {held[i]}"))
+            for tag, msg in bad:
+                chk.violation(f"{kind}|reentrant|{tag}|{json.dumps([h, {str(k): v for k, v in scripts.items()}])}",
+                              {"mode": "reentrant", "kind": kind, "init": init, "history": h,
+                               "scripts": {str(k): v for k, v in scripts.items()}, "implementation": outs,
+                               "oracle": tag, "what": msg}, size=50 + len(h))
+            if len(begun) > len(h):
+                stats["reentrant_nontrivial"].add((kind, json.dumps([init, h, sorted((str(k), v) for k, v in scripts.items())])))
+    stats["reentrant_runs"] = done
+
+
+# --------------------------------------------------------------------------
 # K3: scenarios (setup, thread programs)
 # --------------------------------------------------------------------------
 
@@ -543,16 +607,21 @@ def run_check(chk, kinds, what, extra_assumptions=(), regressions=None):
         chk.cov["search"] = "a theorem no longer checks: histories, scenarios and preemption bound enlarged to thorough"
     stats = {"k1_len": {}, "ops": {}, "k1_nontrivial": set(), "k1_exhaustive": {}, "k3_runs": {}, "k3_steps": 0,
              "k3_nontrivial": set()}
+    stats["reentrant_nontrivial"] = set()
     run_k1(chk, kinds, tier, stats)
+    run_reentrant(chk, kinds, tier, stats)
     bound = run_k3(chk, kinds, tier, stats)
     if regressions is not None:
         stats["fixed_defect_witnesses"] = regressions(chk)
-    chk.cov["distinct_nontrivial"] = len(stats["k1_nontrivial"]) + len(stats["k3_nontrivial"])
+    chk.cov["distinct_nontrivial"] = (len(stats["k1_nontrivial"]) + len(stats["k3_nontrivial"])
+                                      + len(stats["reentrant_nontrivial"]))
     chk.cov["rule"] = (
         f"{what}.  K1 (one thread): per class, EXHAUSTIVE short histories ({stats['k1_exhaustive']}) plus seeded random "
         "histories of length 1..13 over 5 items (item 0 is falsy like an empty CompositeDisposable), run on the real "
         "class with spy items; non-trivial = at least two mutating calls and at least one observable effect, counted as "
-        "distinct (class, init, history).  K3 (threads): fixed racing scenarios plus seeded random ones (2-3 threads, 1-2 "
+        "distinct (class, init, history).  Re-entrant histories (an item's first dispose() / the action calls back into the "
+        "object; Disposable, Composite, Serial, RefCount): ORACLE ONLY, the models and theorems do not cover them; "
+        "counted when a nested call really happened.  K3 (threads): fixed racing scenarios plus seeded random ones (2-3 threads, 1-2 "
         f"calls each, optional sequential setup), ALL schedules with at most {bound} preemptions in the model's "
         "granularity (coarse: every scheduled step is one action of Core/DispConc.v; compared step-for-step with the "
         "Coq transition system under the same schedule) and, for the oracle only, at line granularity with yields "
@@ -562,6 +631,8 @@ def run_check(chk, kinds, what, extra_assumptions=(), regressions=None):
         "k1_history_length": {str(k): v for k, v in sorted(stats["k1_len"].items())},
         "calls": dict(sorted(stats["ops"].items())),
         "k1_distinct_nontrivial": len(stats["k1_nontrivial"]),
+        "reentrant_runs_oracle_only": stats.get("reentrant_runs", 0),
+        "reentrant_distinct_with_nested_calls": len(stats["reentrant_nontrivial"]),
         "k3_runs": stats["k3_runs"], "k3_scenarios": stats.get("k3_scenarios", 0),
         "k3_distinct_nontrivial": len(stats["k3_nontrivial"]),
         "k3_scheduled_steps_total": stats["k3_steps"], "k3_preemption_bound": bound,
@@ -584,8 +655,8 @@ def run_check(chk, kinds, what, extra_assumptions=(), regressions=None):
             "made under the same lock; each locked block writes each shared attribute at most once and every unlocked "
             "access touches a single attribute (checked by the AST pass), so an unlocked read interleaved with a locked "
             "block sees the state before or after the block's write",
-            "items are well-behaved disposables: dispose() of an item does not call back into the container "
-            "(re-entrant histories are not modelled)",
+            "theorems and correspondence: dispose() of an item does not call back into the container (re-entrant "
+            "histories are exercised against the oracle only)",
             "an item that is handed over several times is counted per occurrence",
         ] + list(extra_assumptions))
 
@@ -606,6 +677,16 @@ def replay(chk, path):
         print("implementation", outs)
         print("oracle", bad or "ok")
         return 1 if bad else 0
+    if d.get("mode") == "reentrant":
+        init = tuple(d["init"]) if isinstance(d["init"], list) else d["init"]
+        scripts = {(int(k) if k.isdigit() else k): [tuple(o) for o in v] for k, v in d["scripts"].items()}
+        snaps, begun = [], []
+        outs = D.run_seq(d["kind"], init, [tuple(o) for o in d["history"]], falsy=(0,), snaps=snaps,
+                         scripts=scripts, begun=begun)
+        print("history", d["history"], "scripts", scripts)
+        print("implementation", outs, "final public state", snaps[-1])
+        print("recorded failure:", d.get("what"), "-- compare by eye (oracle-only mode)")
+        return 1 if outs == [[tuple(o) for o in out] for out in d["implementation"]] else 0
     if d.get("mode") == "concurrent":
         kind = d["kind"]
         setup = [tuple(o) for o in d["setup"]]
@@ -624,7 +705,7 @@ def replay(chk, path):
             c.spawn(mk(setup))
             for p in progs:
                 c.spawn(mk(p))
-            c.run(k3.follow(d["schedule"]), setup=0)
+            c.run(k3.follow(d["schedule"], lenient=True), setup=0)
             w.env.ctl = None
         bad = oracle_conc(kind, setup, progs, list(c.log), w, w.env.flags)
         print("setup", setup, "programs", progs, "schedule", d["schedule"])
